@@ -91,6 +91,11 @@ func genPDU(r *rand.Rand, m msgRef, budget int, big bool, noExt ...bool) (ngapTy
 	g := ngapgen.New(r, budget)
 	g.Big = big
 	g.NoExt = len(noExt) > 0 && noExt[0]
+	return genPDUWith(g, r, m)
+}
+
+// genPDUWith: a PDU of message m from a generator the caller configured.
+func genPDUWith(g *ngapgen.Gen, r *rand.Rand, m msgRef) (ngapType.NGAPPDU, *ngapgen.Gen) {
 	var pdu ngapType.NGAPPDU
 	pdu.Present = m.Class
 	mk := func(t reflect.Type) reflect.Value { // {ProcedureCode, Criticality, Value}
